@@ -10,6 +10,7 @@ import JumanjiModel.Env.Sudoku.DBLemmas
 import JumanjiModel.Gen.SudokuDB
 import JumanjiModel.Env.Sudoku.RunLemmas
 import JumanjiModel.Env.SpecTieSSM
+import JumanjiModel.Env.Sudoku.SpecValid
 open Jm Jx Sudoku
 
 namespace Props.C04
@@ -288,4 +289,109 @@ theorem sudoku_bounds_within_declared_spec :
     (SpecTieSSM.obsLeavesOf "sudoku-default").map (·.1) = ["board"] := by decide +kernel
 example : SpecTieSSM.tie "sudoku-default" [("board", iv (-2) 8), ("action_mask", iv 0 1)] obsShapes = false ∧
     SpecTieSSM.tie "sudoku-default" obsBounds [("board", [9, 8])] = false := by decide +kernel
+/-! #### (wave 4) membership in the DECLARED specs: structure, field order, shapes, dtypes and inclusive bounds -/
+open Sp PzS PkS
+
+/-- the model's `obsSpec` / `actionSpec` / reward and discount specs ARE the specs generated from the real spec objects
+(Gen/Specs.lean) for both catalogue configurations of Sudoku.  The generated table holds the `board` leaf only (the 729-entry
+`action_mask` leaf is too large for it): the second leaf of `obsSpec` — name, shape (9, 9, 9), dtype bool, bounds — is
+compared with the real spec object at run time by the driver op `sudoku.spec` (every configuration of the adapter) -/
+theorem sudoku_obsSpec_generated :
+    prefixed "observation_spec." (Sudoku.obsSpec.take 1) = declared "sudoku-default" "observation_spec." ∧
+    prefixed "observation_spec." (Sudoku.obsSpec.take 1) = declared "sudoku-shared-db" "observation_spec." ∧
+    Sudoku.obsSpec.map (·.1) = ["board", "action_mask"] ∧
+    [("action_spec", Sudoku.actionSpec)] = declared "sudoku-default" "action_spec" ∧
+    [("action_spec", Sudoku.actionSpec)] = declared "sudoku-shared-db" "action_spec" ∧
+    [("reward_spec", rewardSpec)] = declared "sudoku-default" "reward_spec" ∧
+    [("discount_spec", discountSpec)] = declared "sudoku-default" "discount_spec" := by
+  refine ⟨by decide, by decide, by decide, by decide, by decide, by decide, by decide⟩
+
+/-- the `reset` observation on top of ANY 9×9 board whose cells are −1 or digits 0..8 is accepted by
+`observation_spec.validate`: fields `board`, `action_mask`; shapes `(9, 9)`, `(9, 9, 9)`; dtypes int32, bool; bounds `[-1, 9]`,
+`[0, 1]` -/
+theorem sudoku_reset_obs_valid (b : Grid Int) (hs : Grid.shaped b 9 9 = true) (hc : CellsInRange b) :
+    Sudoku.obsSpec.valid (toNValue (Sudoku.reset b).2.obs) = true := Sudoku.reset_obs_valid b hs hc
+
+/-- … in particular on top of every feasible board (the generator certificate evaluated by `sudoku.instance`), where the reset
+state also satisfies the invariant `SpecInv` -/
+theorem sudoku_reset_obs_valid_of_feasible (b : Grid Int) (hf : Feasible b) :
+    Sudoku.obsSpec.valid (toNValue (Sudoku.reset b).2.obs) = true ∧ SpecInv (Sudoku.reset b).1 :=
+  Sudoku.reset_obs_valid_of_feasible b hf
+
+/-- EVERY draw of `DatabaseGenerator` over the shipped databases (all 11 000 boards; the draw is the index) and the board of
+`DummyGenerator`: the reset observation is a member of the spec and the reset state satisfies the invariant.  No hypotheses -/
+theorem sudoku_db_reset_obs_valid :
+    (∀ b ∈ Gen.SudokuDB.allBoards, Sudoku.obsSpec.valid (toNValue (Sudoku.reset b).2.obs) = true ∧
+      SpecInv (Sudoku.reset b).1) ∧
+    (Sudoku.obsSpec.valid (toNValue (Sudoku.reset sampleBoard).2.obs) = true ∧ SpecInv (Sudoku.reset sampleBoard).1) :=
+  ⟨fun b hb => Sudoku.reset_obs_valid_of_feasible b (Props.C10.sudoku_db_feasible b hb).1,
+   Sudoku.reset_obs_valid_of_feasible _ ((Sudoku.DB.boardOK_iff _).1 Props.C10.sudoku_toy_ok.2).1⟩
+
+/-- the invariant `SpecInv` (a 9×9 board with cells in −1..8) holds after `reset` of such a board and is preserved by EVERY
+step whose digit is in the action space (row and column may be ANY integers) — the cell may be filled already, the move may
+be illegal, the step may be terminal -/
+theorem sudoku_specInv_invariant :
+    (∀ b : Grid Int, Grid.shaped b 9 9 = true → CellsInRange b → SpecInv (Sudoku.reset b).1) ∧
+    (∀ (s : State) (r c d : Int), SpecInv s → (0 ≤ d ∧ d ≤ 8) → SpecInv (step s r c d).1) :=
+  ⟨Sudoku.reset_specInv, fun s r c d h hd => Sudoku.step_specInv s h r c d hd⟩
+
+/-- the observation of EVERY such step from a state satisfying the invariant is a member of the spec (terminal step
+included; the CACHED mask of the state plays no role: the emitted mask is recomputed from the new board) -/
+theorem sudoku_step_obs_valid (s : State) (h : SpecInv s) (r c d : Int) (hd : 0 ≤ d ∧ d ≤ 8) :
+    Sudoku.obsSpec.valid (toNValue (step s r c d).2.obs) = true := Sudoku.step_obs_valid s h r c d hd
+
+example : SpecInv (Sudoku.reset sampleBoard).1 := by decide
+
+/-- WHOLE EPISODES (and beyond): along the rollout (`Ep.rollout` = the L1 step iterated, no stop at LAST) of ANY in-spec
+actions from the reset of ANY board of the shipped databases, EVERY emitted observation is a member of the spec and every
+state satisfies the invariant -/
+theorem sudoku_obs_valid_along (b : Grid Int) (hb : b ∈ Gen.SudokuDB.allBoards) (as : List Action)
+    (has : ∀ a ∈ as, InSpec a) (j : Nat) (e : State × TimeStep Obs)
+    (he : (Ep.rollout stepA (Sudoku.reset b).1 as)[j]? = some e) :
+    Sudoku.obsSpec.valid (toNValue e.2.obs) = true ∧ SpecInv e.1 :=
+  Sudoku.rollout_obs_valid _ (sudoku_db_reset_obs_valid.1 b hb).2 as has j e he
+
+/-- the same from any state satisfying the invariant -/
+theorem sudoku_rollout_obs_valid (s : State) (h : SpecInv s) (as : List Action) (has : ∀ a ∈ as, InSpec a)
+    (j : Nat) (e : State × TimeStep Obs) (he : (Ep.rollout stepA s as)[j]? = some e) :
+    Sudoku.obsSpec.valid (toNValue e.2.obs) = true ∧ SpecInv e.1 := Sudoku.rollout_obs_valid s h as has j e he
+
+/-- what membership means (so the theorems above are not hollow): `validate` accepts an observation ONLY IF `board` is 9×9
+(81 cells) with every cell in `[-1, 9]` and the mask is 9×9×9 (729 entries).  The declared maximum 9 (`BOARD_WIDTH`) is looser
+than what the environment emits (`CellsInRange`: −1..8, `sudoku_step_obs_in_bounds`) -/
+theorem sudoku_obs_valid_only (o : Obs) (h : Sudoku.obsSpec.valid (toNValue o) = true) :
+    shape2 o.board = [9, 9] ∧ (List.flatten o.board).length = 81 ∧ (∀ v ∈ List.flatten o.board, -1 ≤ v ∧ v ≤ 9) ∧
+    shape3 o.mask = [9, 9, 9] ∧ (List.flatten (List.flatten o.mask)).length = 729 := Sudoku.obs_valid_only o h
+
+/-- positive and negative instances: the reset observation of the sample board; a cell set to 9 is still accepted by the
+(looser) declared bound, a cell set to 10 or −2 is not; a board with a row missing is not -/
+example :
+    Sudoku.obsSpec.valid (toNValue (Sudoku.reset sampleBoard).2.obs) = true ∧
+    Sudoku.obsSpec.valid (toNValue { (Sudoku.reset sampleBoard).2.obs with board := Grid.set sampleBoard 0 0 9 }) = true ∧
+    Sudoku.obsSpec.valid (toNValue { (Sudoku.reset sampleBoard).2.obs with board := Grid.set sampleBoard 0 0 10 }) = false ∧
+    Sudoku.obsSpec.valid (toNValue { (Sudoku.reset sampleBoard).2.obs with board := Grid.set sampleBoard 3 4 (-2) }) = false ∧
+    Sudoku.obsSpec.valid (toNValue { (Sudoku.reset sampleBoard).2.obs with board := sampleBoard.tail }) = false := by
+  decide +kernel
+
+/-- reward and discount of every `step` (ALL states, ALL integer actions) and of `reset` are accepted by `reward_spec`
+(Array((), float)) and `discount_spec` (BoundedArray((), float, 0, 1)) -/
+theorem sudoku_reward_discount_valid (s : State) (b : Grid Int) (r c d : Int) :
+    rewardSpec.valid (scalarArr (step s r c d).2.reward) = true ∧
+    discountSpec.valid (scalarArr (step s r c d).2.discount) = true ∧
+    rewardSpec.valid (scalarArr (Sudoku.reset b).2.reward) = true ∧
+    discountSpec.valid (scalarArr (Sudoku.reset b).2.discount) = true :=
+  ⟨(Sudoku.step_reward_discount_valid s r c d).1, (Sudoku.step_reward_discount_valid s r c d).2,
+   (Sudoku.reset_reward_discount_valid b).1, (Sudoku.reset_reward_discount_valid b).2⟩
+
+/-- `action_spec.generate_value()` = (0, 0, 0): the action spec is well-formed, the generated value is a member, `step`
+answers it in EVERY state with a protocol-conform timestep and — from a state satisfying the invariant — with an observation
+in the spec; membership in `action_spec` is "row, column, digit < 9" -/
+theorem sudoku_accepts_generate_value (s : State) :
+    Sudoku.actionSpec.WF = true ∧ Sudoku.actionSpec.valid Sudoku.actionSpec.generate = true ∧
+    Sudoku.actionSpec.generate = actionArr 0 0 0 ∧ StepOK none false (step s 0 0 0).2 = true ∧
+    (SpecInv s → Sudoku.obsSpec.valid (toNValue (step s 0 0 0).2.obs) = true) := Sudoku.accepts_generate_value s
+
+theorem sudoku_action_spec_iff (r c d : Nat) :
+    Sudoku.actionSpec.valid (actionArr (r : Int) (c : Int) (d : Int)) = true ↔ InSpec (r, c, d) :=
+  Sudoku.actionSpec_valid_iff r c d
 end Props.C01
